@@ -271,6 +271,7 @@ func main() {
 	genEVM(fc)
 	genGas(fc)
 	genWiring(fc)
+	genShield(fc)
 	genDeterminism(*repo)
 	var names []string
 	for k := range fc.files {
